@@ -116,6 +116,8 @@ class Probe(Stream):
         log.nd += 1
         d = log.nd
         extra = {}
+        if isinstance(x, (int, tuple, list)):
+            extra = {"rawx": x if not isinstance(x, list) else list(x)}
         if isinstance(x, str):
             extra = {"text": x, "raw": list(x.encode("utf-8"))}
         log.add("deliver", probe=self.pid, d=d, x=flat(x), md=enc_md(metadata),
